@@ -128,6 +128,9 @@ func c09Variants(ss []sym, m gramResult, f func(name, src string, cmIdx int)) {
 			c = true
 			n++
 		}
+		if a.head {
+			n += len(ss[a.sym].inner) // comments inside a word's substitution come first
+		}
 	}
 	inComment[len(at)] = c
 	commentsBefore[len(at)] = n
@@ -209,6 +212,8 @@ func c09Variants(ss []sym, m gramResult, f func(name, src string, cmIdx int)) {
 			if prev != nil && prev.kind != kNL {
 				note(b, " #k", "comment before newline", commentsBefore[b])
 				f("comment before newline", renderAtoms(ss, at, only(b, " #k")), commentsBefore[b])
+				// a comment is plain text up to the newline, whatever characters it holds
+				f("comment before newline «`'\")k\\»", renderAtoms(ss, at, only(b, " #`'\")k\\")), commentsBefore[b])
 			}
 		case intra:
 			note(b, "\\\n", "backslash-newline inside "+cur.text, -1)
@@ -266,13 +271,32 @@ func c09Variants(ss []sym, m gramResult, f func(name, src string, cmIdx int)) {
 			if k := strings.Index(s.text, "b\nc"); k >= 0 && (strings.Contains(s.text, "$(") || strings.Contains(s.text, "`")) {
 				pos := base.start[i] + k + 1
 				f("comment before the newline inside "+s.text, base.src[:pos]+" #k"+base.src[pos:], before)
+				texts := []string{"'k", "\"k", "$(k", "}k", "\\"}
+				if !strings.Contains(s.text, "`") {
+					// (a backquote met inside a comment while the end of a backquoted substitution is searched for:
+					// undefined, XCU 2.6.3)
+					texts = append(texts, "`k", ")k")
+				}
+				for _, t := range texts {
+					f("comment «"+t+"» before the newline inside "+s.text, base.src[:pos]+" #"+t+base.src[pos:], before)
+				}
 			}
 		}
 		before += len(s.inner)
 	}
 }
 
-func c09Judge(base c09Ref, src string, cmIdx int, semantic bool) string {
+// c09Text: the text of the inserted comment ("k" unless the transform's name carries another one in «…»).
+func c09Text(name string) string {
+	if i := strings.Index(name, "«"); i >= 0 {
+		if j := strings.Index(name, "»"); j > i {
+			return name[i+len("«") : j]
+		}
+	}
+	return "k"
+}
+
+func c09Judge(base c09Ref, src string, cmIdx int, semantic bool, text string) string {
 	v, err, pan := c09Parse(src)
 	if pan != nil {
 		return fmt.Sprintf("the variant panics: %v", pan)
@@ -291,7 +315,7 @@ func c09Judge(base c09Ref, src string, cmIdx int, semantic bool) string {
 		cmIdx = len(base.comments)
 	}
 	if cmIdx >= 0 {
-		want = append(append(append([]string{}, base.comments[:cmIdx]...), "k"), base.comments[cmIdx:]...)
+		want = append(append(append([]string{}, base.comments[:cmIdx]...), text), base.comments[cmIdx:]...)
 	}
 	if !reflect.DeepEqual(v.comments, want) && len(v.comments)+len(want) > 0 {
 		return fmt.Sprintf("comments %q, expected %q", v.comments, want)
@@ -327,7 +351,7 @@ func c09Sentence(w *W, ss []sym) {
 		} else {
 			w.Count("transform: "+strings.SplitN(name, " inside", 2)[0], 1)
 		}
-		if d := c09Judge(base, src, cmIdx, name == "newline for ;"); d != "" {
+		if d := c09Judge(base, src, cmIdx, name == "newline for ;", c09Text(name)); d != "" {
 			w.Violation("", c09Case{symTexts(ss), r.src, src, name}, fmt.Sprintf("%q → %q (%s): %s", r.src, src, name, d))
 		}
 	})
